@@ -227,6 +227,8 @@ class Prog:
         self.events.append([])
         rng, n = self.rng, self.np
         kinds = [k for k in COLLS if k not in self.exclude]
+        if "reducescatterblock" not in self.avoid and "reducescatterblock" not in self.exclude:
+            kinds.append("reducescatterblock")
         kind = kind or rng.choice(kinds)
         root = rng.randrange(n)
         if kind == "barrier":
@@ -264,6 +266,9 @@ class Prog:
             dt = rng.choice(RED_DT)
             c = [self._cc(dt, False) if rng.random() < 0.8 or self.nozero else 0 for _ in range(n)]
             self.emit("*", kind, dt, *c)
+        elif kind == "reducescatterblock":
+            dt = rng.choice(RED_DT)
+            self.emit("*", kind, self._cc(dt, False), dt)
         else:
             raise ValueError(kind)
 
